@@ -183,8 +183,9 @@ def gen_streams(r):
     """several generators, long interleaved streams (crossing mt19937 twists), reseeds in between."""
     seeds = [rand_seed(r) for _ in range(r.range(1, 4))]
     lines = ["newl %d" % s for s in seeds]
+    nrng = len(seeds)
     for _ in range(r.range(10, 60)):
-        k = r.below(len(seeds))
+        k = r.below(nrng)
         if r.chance(1, 12):
             s = rand_seed(r)
             seeds.append(s)
@@ -293,8 +294,9 @@ def planner_jobs(ck, tier):
     r = ck.rng.fork("planner-jobs")
     seeds = [1 + r.below(1000), 1 + r.below(1 << 30)]
     if tier == "quick":
-        budgets = [300, 1500]
-        geo_envs = ["box2", "se2"]
+        seeds.append(7)
+        budgets = [200, 1200, 3000]
+        geo_envs = ["box2", "box3", "se2"]
     else:
         seeds += [7, 1 + r.below(1 << 62)]
         budgets = [120, 1000, 4000]
@@ -540,7 +542,7 @@ def run(ck):
         seeds = [int(t) for l in body for t in l.split()[1:] if t.isdigit()]
         tasks.append(dict(body=body, seeds=seeds, tag="corpus", pairs=parse_pairs(body), model=not impl_only,
                           two_proc=any(l.startswith("setseed") for l in body)))
-    n_seed, n_reseed, n_stream, n_adv, K = (40, 60, 24, 10, 50) if quick else (200, 400, 150, 60, 50)
+    n_seed, n_reseed, n_stream, n_adv, K = (80, 150, 60, 20, 50) if quick else (200, 600, 200, 60, 50)
     for i in range(n_seed):
         r = ck.rng.fork("seeding%d" % i)
         seeds, body = gen_seeding(r, K if i % 4 else 8)
